@@ -3,6 +3,8 @@ import G3D.Props.C04
 import G3D.Proofs.BodySoundSets
 import G3D.Proofs.K2
 import G3D.Proofs.K4a
+import G3D.Proofs.K4f
+import G3D.Proofs.K4l
 /-! # C03 — ConvexPolygon / ConvexPolyhedron × ConvexPolygon / ConvexPolyhedron  (partial)
     Proved: polygon × polygon EXACT in every relative position (kernels K0, K1, K2, K6); soundness of every pair.
     Completeness of polygon × polyhedron (K3) and polyhedron × polyhedron (K3, K4) is not proved; decided on every
@@ -67,4 +69,72 @@ theorem inter_polygon_polyhedron_total (P : Polygon) (hv : P.Valid) (B : Polyhed
   refine ⟨fun e h => ?_, fun e h => ?_⟩
   · rw [ho] at h; cases h
   · rw [ho'] at h; cases h
+
+/-! ### kernel K4 — ConvexPolyhedron × ConvexPolyhedron: whatever is returned is EXACTLY A ∩ B; the only possible failure is the
+    constructor's own check on the collected faces -/
+/-- for two polyhedra meeting `ExactHyp`: if `intersection` returns, the result (None, Point, proper Segment, polygon or
+    polyhedron) denotes exactly hull(A) ∩ hull(B); if it raises, the exception comes from `ConvexPolyhedron(collected faces)`
+    (Euler / orientation check) on ≥ 2 Valid collected face polygons — never from a "Bug detected" branch -/
+theorem inter_polyhedron_polyhedron_exact_of_ok (A B : Polyhedron) (hA : A.ExactHyp) (hB : B.ExactHyp) :
+    (∀ o, inter (.polyhedron A) (.polyhedron B) = .ok o →
+      ResSegWF o ∧ ∀ x, denOptB o x ↔ (InHull A.verts x ∧ InHull B.verts x)) ∧
+    (∀ e, inter (.polyhedron A) (.polyhedron B) = .error e →
+      ∃ p, K4.Parts2 A B p ∧ 2 ≤ p.gons.length ∧ (∀ g ∈ p.gons, g.Valid) ∧
+        ∃ ce, Polyhedron.mk? p.gons = .error ce ∧ e = .ctor ce) := by
+  rw [Props.C04.inter_eq_ref]; exact interPolyhedronPolyhedron_exact_of_ok A B hA hB
+
+theorem inter_polyhedron_polyhedron_no_bug (A B : Polyhedron) (hA : A.ExactHyp) (hB : B.ExactHyp) :
+    inter (.polyhedron A) (.polyhedron B) ≠ .error .bug := by
+  rw [Props.C04.inter_eq_ref]; exact interPolyhedronPolyhedron_no_bug A B hA hB
+
+/-- None is returned exactly when the bodies are disjoint -/
+theorem inter_polyhedron_polyhedron_none_iff (A B : Polyhedron) (hA : A.ExactHyp) (hB : B.ExactHyp) :
+    inter (.polyhedron A) (.polyhedron B) = .ok none ↔ ∀ x, ¬ (InHull A.verts x ∧ InHull B.verts x) := by
+  rw [Props.C04.inter_eq_ref]; exact interPolyhedronPolyhedron_none_iff A B hA hB
+
+/-- the lower-dimensional results (touching bodies: common face, edge, vertex; disjoint) are returned without any error -/
+theorem inter_polyhedron_polyhedron_total_or_ctor (A B : Polyhedron) (hA : A.ExactHyp) (hB : B.ExactHyp) :
+    ∃ p, K4.Parts2 A B p ∧
+      ((p.gons.length < 2 ∧ ∃ o, inter (.polyhedron A) (.polyhedron B) = .ok o ∧ K4.Shape o ∧
+          ∀ x, denOptB o x ↔ (InHull A.verts x ∧ InHull B.verts x)) ∨
+       (2 ≤ p.gons.length ∧ (∀ g ∈ p.gons, g.Valid) ∧
+          inter (.polyhedron A) (.polyhedron B) = (do let R ← liftC (Polyhedron.mk? p.gons); pure (some (.polyhedron R))) ∧
+          ∀ R, Polyhedron.mk? p.gons = .ok R → ∀ x, InHull R.verts x ↔ (InHull A.verts x ∧ InHull B.verts x))) := by
+  rw [Props.C04.inter_eq_ref]; exact interPolyhedronPolyhedron_total A B hA hB
+
+
+/-! ### polyhedron × polyhedron: the only possible failure is Euler's check; a returned body is a valid operand again -/
+/-- `K4.eulerOf gons` = V − E + F of the collected face complex (what the constructor computes).  For two polyhedra meeting
+    `ExactHyp` exactly one of three things happens: (i) fewer than 2 polygon clips (touching / disjoint bodies): the result is
+    returned without error and exact; (ii) the Euler number of the collected complex is 2: a ConvexPolyhedron R is returned,
+    exact; (iii) it is not 2: `ValueError` from the constructor — no other failure is possible -/
+theorem inter_polyhedron_polyhedron_ok_or_euler (A B : Polyhedron) (hA : A.ExactHyp) (hB : B.ExactHyp) :
+    ∃ p, K4.Parts2 A B p ∧
+      ((p.gons.length < 2 ∧ ∃ o, inter (.polyhedron A) (.polyhedron B) = .ok o ∧ K4.Shape o ∧
+          ∀ x, denOptB o x ↔ (InHull A.verts x ∧ InHull B.verts x)) ∨
+       (2 ≤ p.gons.length ∧ K4.eulerOf p.gons = 2 ∧ ∃ R, Polyhedron.mk? p.gons = .ok R ∧
+          inter (.polyhedron A) (.polyhedron B) = .ok (some (.polyhedron R)) ∧
+          ∀ x, InHull R.verts x ↔ (InHull A.verts x ∧ InHull B.verts x)) ∨
+       (2 ≤ p.gons.length ∧ K4.eulerOf p.gons ≠ 2 ∧ Polyhedron.mk? p.gons = .error .value ∧
+          inter (.polyhedron A) (.polyhedron B) = .error (.ctor .value))) := by
+  rw [Props.C04.inter_eq_ref]; exact interPolyhedronPolyhedron_ok_or_euler A B hA hB
+
+/-- a returned ConvexPolyhedron is a closed convex body again: Valid (closed surface, vertices inside, interior point), without
+    coplanar neighbouring faces, edge list = face edges — it meets `ExactHyp`, and both its membership test and the hull of its
+    vertices are exactly A ∩ B -/
+theorem inter_polyhedron_polyhedron_result_valid (A B : Polyhedron) (hA : A.ExactHyp) (hB : B.ExactHyp)
+    (R : Polyhedron) (h : inter (.polyhedron A) (.polyhedron B) = .ok (some (.polyhedron R))) :
+    R.Valid ∧ R.ExactHyp ∧
+      (∀ x, R.contains x = true ↔ (InHull A.verts x ∧ InHull B.verts x)) ∧
+      (∀ x, InHull R.verts x ↔ (InHull A.verts x ∧ InHull B.verts x)) := by
+  rw [Props.C04.inter_eq_ref] at h; exact interPolyhedronPolyhedron_result_exactHyp A B hA hB R h
+
+/-- **C03 for every composite pair, given Euler's formula for the assembled complex**: the call returns without error an
+    admissible operand (None, well-formed flat, Valid polygon, polyhedron meeting `ExactHyp`) denoting exactly A ∩ B -/
+theorem inter_polyhedron_polyhedron_exact_of_euler (A B : Polyhedron) (hA : A.ExactHyp) (hB : B.ExactHyp)
+    (heul : ∀ p, K4.Parts2 A B p → 2 ≤ p.gons.length → K4.eulerOf p.gons = 2) :
+    ∃ o, inter (.polyhedron A) (.polyhedron B) = .ok o ∧ (∀ ob, o = some ob → OpOK ob) ∧
+      ∀ x, denOptB o x ↔ (InHull A.verts x ∧ InHull B.verts x) := by
+  rw [Props.C04.inter_eq_ref]; exact interPolyhedronPolyhedron_exactOK_of_euler A B hA hB heul
+
 end G3D.Props.C03
